@@ -85,8 +85,8 @@ func main() {
 		os.Exit(0)
 	}
 
-	rule := "scenario = a block tree above a 101..108-block base chain (multi-output coinbases), 8..28 blocks, forks of depth 1..k incl. forks below the base tip, equal-work ties, invalid-when-connected blocks (double spend, missing / cross-branch input, immature coinbase, failing script, overspend, coinbase overpay, own-coinbase spend, vout out of range) anywhere incl. on the winning branch and with descendants, random spend graphs (1..3 inputs, 1..4 outputs, partial spends, in-block chains); delivery = random topological order with children tried before parents, Idle() calls, final unwind of up to 6 blocks; second stream with the memory allocator wired and DefragAllImproved(Relocate) between deliveries. Hand-made corpus scenarios first (past defects, ties, genesis fork, retarget/float work). One evaluation = one delivery/idle/defrag/undo step compared three ways; distinct = distinct (tip, utxo digest, outcome) observations"
-	expl := "after EVERY step the real chain's tip hash + full decoded UTXO dump + outcome are compared with (a) the Lean model (oracle_c06) and (b) the property predicate evaluated by an independent Go reference: tip = first-seen maximum-exact-work node whose whole branch is valid, UTXO = replay of that branch from genesis; undo files of the active branch present (model) and actually usable (final unwind on the real chain)"
+	rule := "scenario = a block tree above a 101..108-block base chain (multi-output coinbases), 8..28 blocks, forks of depth 1..k incl. forks below the base tip, equal-work ties, invalid-when-connected blocks (double spend, missing / cross-branch input, immature coinbase, failing script, wrong key, spends of outputs locked by a HEIGHT-gated script rule — CLTV / CSV / P2WPKH with empty witness, which pass under the flags of height 0 —, overspend, coinbase overpay, own-coinbase spend, vout out of range) anywhere incl. on the winning branch and with descendants, random spend graphs (1..3 inputs, 1..4 outputs, partial spends, in-block chains); delivery = random topological order with children tried before parents, Idle() calls, final unwind of up to 6 blocks; second stream with the memory allocator wired and DefragAllImproved(Relocate) between deliveries; third stream random-mixed-bits: the genesis node carries bits 0x201fffff and every block is heavy (those bits) or light (0x207fffff, testnet 20-minute rule) at random, so that branches are heavier-but-not-taller, taller-but-lighter, and fall-backs after failed reorganisations see leaves of different work. Hand-made corpus scenarios first (past defects, ties, ties after a failed reorganisation with first child = / != first seen, genesis fork, heavier-not-taller, failed reorganisation with mixed bits, retarget/float work). One evaluation = one delivery/idle/defrag/undo step compared three ways; distinct = distinct (tip, utxo digest, outcome) observations"
+	expl := "after EVERY step the real chain's tip hash + full decoded UTXO dump + outcome are compared with (a) the Lean model (oracle_c06) and (b) the property predicate evaluated by an independent Go reference: tip = first-seen maximum-exact-work node whose whole branch is valid, UTXO = replay of that branch from genesis (a tie resolved against the first-seen block counts as the known finding only in the delivery whose reorganisation failed and only when the tip is the documented first-child fall-back choice, recomputed independently; any other choice is a violation); undo files of the active branch present (model) and actually usable (final unwind on the real chain)"
 
 	if r.Replay != "" {
 		b, err := os.ReadFile(r.Replay)
@@ -109,6 +109,19 @@ func main() {
 		r.Finish("replay of one recorded scenario", "replay")
 	}
 
+	if st := os.Getenv("C06_STREAM"); st != "" { // development aid: C06_STREAM=random-mixed-bits:200 runs only that stream
+		var name string
+		var cnt int
+		if i := strings.LastIndex(st, ":"); i > 0 {
+			name = st[:i]
+			fmt.Sscan(st[i+1:], &cnt)
+		}
+		for i := 0; i < cnt; i++ {
+			runScenario(name, false, r.Rng.U64(), 8+r.Rng.Intn(21))
+		}
+		loud()
+		r.Finish("development run of one stream: "+st, "development run")
+	}
 	// 1. corpus
 	for _, c := range corpusList {
 		if c.thoroughOnly && !r.Thorough() {
